@@ -248,10 +248,92 @@ Proof.
   intros E; inversion E; subst. apply set_err_inv. destruct (rerr s2 =? 1); [apply set_err_inv|]; exact HI2.
 Qed.
 
+(* ---------- ReadRune ---------- *)
+Lemma decode_rune_size w : w <> [] -> 1 <= snd (decode_rune w) <= blen w /\ 1 <= snd (decode_rune w) <= 4.
+Proof.
+  intros Hne. destruct w as [|b0 t]; [congruence|]. unfold decode_rune, blen.
+  destruct (b0 <? 128); [simpl; lia|].
+  destruct (rune_need b0 =? 2).
+  { destruct t as [|b1 t]; [simpl; lia|]. destruct (is_cont b1); simpl; lia. }
+  destruct (rune_need b0 =? 3).
+  { destruct t as [|b1 [|b2 t]]; try (simpl; lia). destruct (second_ok b0 b1 && is_cont b2); simpl; lia. }
+  destruct (rune_need b0 =? 4).
+  { destruct t as [|b1 [|b2 [|b3 t]]]; try (simpl; lia). destruct (second_ok b0 b1 && is_cont b2 && is_cont b3); simpl; lia. }
+  simpl; lia.
+Qed.
+
+Lemma rd_rune_fill_inv : forall fuel s, Inv s -> Inv (rd_rune_fill fuel s).
+Proof.
+  induction fuel as [|f IH]; intros s HI; cbn [rd_rune_fill]; [apply set_err_inv; exact HI|].
+  destruct ((rw s <? rr s + 4) && negb (full_rune (window s)) && (rerr s =? 0)); [|exact HI].
+  apply IH. apply fill_inv. exact HI.
+Qed.
+
+(* the size ReadRune consumes, for a state with a non-empty window *)
+Definition rune_size (s1 : reader) : Z :=
+  snd (if nth (Z.to_nat (rr s1)) (rbuf s1) 0 <? 128 then (nth (Z.to_nat (rr s1)) (rbuf s1) 0, 1) else decode_rune (window s1)).
+Lemma rune_size_bound s1 : Inv s1 -> rr s1 <> rw s1 -> 1 <= rune_size s1 <= buffered s1 /\ rune_size s1 <= 4.
+Proof.
+  intros HI Hne. pose proof (window_len s1 HI) as Hwl. pose proof HI as (_ & _ & Hrw & _).
+  unfold rune_size, buffered. destruct (nth (Z.to_nat (rr s1)) (rbuf s1) 0 <? 128); [simpl; lia|].
+  assert (Hw : window s1 <> []) by (intro H0; rewrite H0 in Hwl; unfold blen in Hwl; simpl in Hwl; lia).
+  pose proof (decode_rune_size _ Hw). lia.
+Qed.
+
+Lemma rd_rune_inv s r size e s' lrs' : Inv s -> rd_rune s = (r, size, e, s', lrs') -> Inv s'.
+Proof.
+  intros HI. unfold rd_rune. pose proof (rd_rune_fill_inv (rfuel s) s HI) as HI1.
+  set (s1 := rd_rune_fill (rfuel s) s) in *.
+  destruct (rr s1 =? rw s1) eqn:Er; [intros E; inversion E; subst; apply set_err_inv; exact HI1|].
+  destruct (rune_size_bound s1 HI1 ltac:(lia)) as [Hb _]. unfold rune_size in Hb.
+  destruct (if nth (Z.to_nat (rr s1)) (rbuf s1) 0 <? 128 then (nth (Z.to_nat (rr s1)) (rbuf s1) 0, 1) else decode_rune (window s1))
+    as [r0 k] eqn:Ek.
+  cbn [snd] in Hb. intros E; inversion E; subst; clear E.
+  pose proof HI1 as (Hc & Hr0 & Hrw & Hwc & Ht & Hrt & Hl). unfold buffered in Hb.
+  apply advance_inv; try assumption; try lia.
+Qed.
+Lemma decode_rune_prefix w : w <> [] ->
+  decode_rune (firstn (Z.to_nat (snd (decode_rune w))) w) = decode_rune w.
+Proof.
+  intros Hne. destruct w as [|b0 t]; [congruence|]. unfold decode_rune at 2 3.
+  destruct (b0 <? 128) eqn:E0; [simpl; rewrite E0; reflexivity|].
+  destruct (rune_need b0 =? 2) eqn:E2.
+  { destruct t as [|b1 t]; [simpl; rewrite E0, E2; reflexivity|].
+    destruct (is_cont b1) eqn:Ec; simpl; rewrite E0, E2; [rewrite Ec; reflexivity|reflexivity]. }
+  destruct (rune_need b0 =? 3) eqn:E3.
+  { destruct t as [|b1 [|b2 t]]; try (simpl; rewrite E0, E2, E3; reflexivity).
+    destruct (second_ok b0 b1 && is_cont b2) eqn:Ec; simpl; rewrite E0, E2, E3; [rewrite Ec; reflexivity|reflexivity]. }
+  destruct (rune_need b0 =? 4) eqn:E4.
+  { destruct t as [|b1 [|b2 [|b3 t]]]; try (simpl; rewrite E0, E2, E3, E4; reflexivity).
+    destruct (second_ok b0 b1 && is_cont b2 && is_cont b3) eqn:Ec; simpl; rewrite E0, E2, E3, E4; [rewrite Ec; reflexivity|reflexivity]. }
+  simpl. rewrite E0, E2, E3, E4. reflexivity.
+Qed.
+
+Lemma rd_rune_fill_exit : forall fuel s, Inv s -> rr (rd_rune_fill fuel s) = rw (rd_rune_fill fuel s) ->
+  rerr (rd_rune_fill fuel s) <> 0.
+Proof.
+  induction fuel as [|f IH]; intros s HI; cbn [rd_rune_fill]; [unfold set_err; recsimpl; lia|].
+  destruct ((rw s <? rr s + 4) && negb (full_rune (window s)) && (rerr s =? 0)) eqn:Ec.
+  - apply IH. apply fill_inv. exact HI.
+  - intros Heq. pose proof (window_len s HI) as Hwl.
+    assert (Hw : window s = []) by (destruct (window s); [reflexivity|]; unfold blen in Hwl; simpl in Hwl; lia).
+    rewrite Hw in Ec. cbn [full_rune negb] in Ec. lia.
+Qed.
+
+Lemma rd_reset_inv s pb s' : Inv s -> rd_reset s = (pb, s') -> Inv s'.
+Proof.
+  unfold rd_reset. intros HI E; inversion E; subst. unfold Inv, rcap in *. recsimpl.
+  destruct HI as (Hc & _). repeat split; lia.
+Qed.
+
 (* every modelled Reader operation preserves the invariant, and its observation reports the new state *)
 Ltac step_fin :=
   let H := fresh "H" in let E := fresh "E" in
   match goal with
+  | |- context [rd_rune ?s] => destruct (rd_rune s) as [[[[? ?] ?] ?] ?] eqn:E; intros H; inversion H; subst;
+      split; [eapply rd_rune_inv; eassumption|eexists; reflexivity]
+  | |- context [rd_reset ?s] => destruct (rd_reset s) as [? ?] eqn:E; intros H; inversion H; subst;
+      split; [eapply rd_reset_inv; eassumption|eexists; reflexivity]
   | |- context [rd_writeto ?s] => destruct (rd_writeto s) as [[? ?] ?] eqn:E; intros H; inversion H; subst;
       split; [eapply rd_writeto_inv; eassumption|eexists; reflexivity]
   | |- context [rd_line ?s] => destruct (rd_line s) as [[[? ?] ?] ?] eqn:E; intros H; inversion H; subst;
@@ -287,7 +369,7 @@ Proof.
   destruct (src_drain (rsrc s1)) as [[d0 e0] rest] eqn:Ed.
   intros E; inversion E; subst; clear E. pose proof (blen_nonneg_early d0).
   unfold Inv, rcap in *. recsimpl. destruct HI1 as (Hc & Hr0 & Hrw & Hwc & Ht & Hrt & Hl).
-  destruct ((0 <? blen d0) && (rr s1 =? rw s1)) eqn:Ez; repeat split; lia.
+  destruct (rr s1 =? rw s1) eqn:Ez; repeat split; lia.
 Qed.
 
 (* operations without the rune pair (ReadRune / UnreadRune are covered by the correspondence check only) *)
@@ -296,12 +378,18 @@ Definition rune_free (op : val) : bool :=
   | VL (VZ t :: _) => negb ((t =? 10) || (t =? 11))
   | _ => true
   end.
+(* operations other than UnreadRune *)
+Definition no_unrune (op : val) : bool :=
+  match op with
+  | VL (VZ t :: _) => negb (t =? 11)
+  | _ => true
+  end.
 
-Lemma reader_step_inv wt op s lrs o s' lrs' : Inv s -> rune_free op = true ->
+Lemma reader_step_inv wt op s lrs o s' lrs' : Inv s -> no_unrune op = true ->
   reader_step wt op (s, lrs) = Some (o, (s', lrs')) ->
   Inv s' /\ exists ret, o = VL [VL ret; VZ (rtotal s'); VZ (rpulled s'); VZ (buffered s')].
 Proof.
-  intros HI. unfold reader_step, rune_free.
+  intros HI. unfold reader_step, no_unrune.
   destruct op as [z|b|l]; try discriminate.
   destruct l as [|[tag| |] l]; try discriminate.
   destruct tag as [|p|p]; try discriminate.
@@ -315,7 +403,7 @@ Proof.
   all: step_fin.
 Qed.
 
-Theorem reader_run_counts : forall wt ops s lrs obs, Inv s -> forallb rune_free ops = true ->
+Theorem reader_run_counts : forall wt ops s lrs obs, Inv s -> forallb no_unrune ops = true ->
   reader_run wt ops (s, lrs) = Some obs ->
   Forall (fun o => exists ret t p b, o = VL [VL ret; VZ t; VZ p; VZ b] /\ t = p - b /\ 0 <= b) obs.
 Proof.
@@ -513,6 +601,11 @@ Proof.
   - apply w_readfrom_inv. exact HI.
 Qed.
 
+Lemma w_reset_inv s out s' : WInv s -> w_reset s = (out, s') -> WInv s'.
+Proof.
+  unfold w_reset. intros HI E; inversion E; subst. unfold WInv, WInvN in *. wsimpl. change (blen []) with 0. lia.
+Qed.
+
 Lemma writer_step_inv rf op s o s' : WInv s -> writer_step rf op s = Some (o, s') ->
   WInv s' /\ exists ret, o = VL [VL ret; VZ (wtotal s'); VZ (blen (wout s')); VZ (blen (wbuf s'))].
 Proof.
@@ -525,6 +618,8 @@ Proof.
   all: try (destruct x as [c|d|src]; try discriminate).
   all: try (destruct (dec_script (VL src)) as [sc|]; [|discriminate]).
   all: match goal with
+  | |- context [w_reset ?s] => destruct (w_reset s) as [? ?] eqn:E; intros H; inversion H; subst;
+      split; [eapply w_reset_inv; eassumption|eexists; reflexivity]
   | |- context [w_write_rune ?c ?s] => destruct (w_write_rune c s) as [[? ?] ?] eqn:E; intros H; inversion H; subst;
       split; [eapply w_write_rune_inv; eassumption|eexists; reflexivity]
   | |- context [w_readfrom_rf ?sc ?s] =>
@@ -560,7 +655,7 @@ Qed.
 Lemma new_writer_inv size sink : WInv (new_writer size sink).
 Proof. unfold WInv, WInvN, new_writer. wsimpl. change (blen []) with 0. destruct (size <=? 0) eqn:E; lia. Qed.
 
-Theorem totalread_exact wt size src ops obs : forallb rune_free ops = true ->
+Theorem totalread_exact wt size src ops obs : forallb no_unrune ops = true ->
   reader_run wt ops (new_reader size src, -1) = Some obs ->
   Forall (fun o => exists ret t p b, o = VL [VL ret; VZ t; VZ p; VZ b] /\ t = p - b /\ 0 <= b) obs.
 Proof. intros Hrf. apply reader_run_counts; [apply new_reader_inv|exact Hrf]. Qed.
@@ -572,3 +667,4 @@ Lemma totalread_example :
   run_C22 (VL [VZ 1; VZ 16; VL [VL [VB [97;98]; VZ 0]; VL [VB [99;100;101;10]; VZ 0]]; VL [VL [VZ 2]; VL [VZ 4; VZ 10]]])
   = VL [VL [VL [VZ 97; VZ 0]; VZ 1; VZ 2; VZ 1]; VL [VL [VB [98;99;100;101;10]; VZ 0]; VZ 6; VZ 6; VZ 0]].
 Proof. vm_compute. reflexivity. Qed.
+
